@@ -41,6 +41,8 @@ def writers():
                         field(3, "default", ST("WFx", False)), field(4, "default", SET(ST("WFx", False))), field(5, "default", M(T("i32"), ST("WFx", True)))])
     # many small fields: readers that know every other one see many separate runs of unknown fields
     d["WRuns"] = struct([field(i, "default", T("i32") if i % 4 else T("string")) for i in range(1, 13)])
+    d["WOuter"] = struct([field(1, "default", ST("WFxC", True)), field(2, "optional", ST("WIn", True)), field(3, "default", L(ST("WFxC", True))),
+                          field(4, "default", M(T("string"), ST("WFxC", True)))])
     # a wide struct: more fields than fit a small position index
     d["WWide"] = struct([field(3 * i + 1, "default", T("i32") if i % 5 else T("string")) for i in range(300)])
     return d
@@ -112,8 +114,12 @@ def build_pairs(rng, quick=True):
     wfx = W["WFx"]["fields"]
     tfx_u = P.reader("WFx", wfx[:2], "fx-fixed-holder", unk=True)
     tfx_n = P.reader("WFx", wfx[:2], "fx-fixed-noholder")
+    fxc_readers = []
     for mp in ({"WFx": tfx_u}, {"WFx": tfx_n}):
-        P.reader("WFxC", W["WFxC"]["fields"], "fxc/" + mp["WFx"], unk=True, mapping=mp)
+        fxc_readers.append(P.reader("WFxC", W["WFxC"]["fields"], "fxc/" + mp["WFx"], unk=True, mapping=mp))
+    # three levels: an outer type nesting (by pointer) mid-level readers that nest leaf readers
+    P.reader("WOuter", W["WOuter"]["fields"], "outer-same", mapping={"WFxC": fxc_readers[0], "WIn": tin_same})
+    P.reader("WOuter", W["WOuter"]["fields"], "outer-same-holder", unk=True, mapping={"WFxC": fxc_readers[1], "WIn": tin_unk})
     # runs of unknown fields separated by known ones (holder readers): fixed patterns plus random subsets
     wr = W["WRuns"]["fields"]
     masks = [{2, 4}, {2, 4, 6, 8, 10}, {3, 6, 9}, {1, 5, 9}, {2, 3, 6, 7}, {4}, {5, 6}, {1, 12}, {2, 5, 11}, {1, 3, 5, 7, 9, 11}]
